@@ -82,8 +82,9 @@ def run_engine(ctx, tag, modes, n_quick, n_thorough, classes, hashseeds=("0",), 
                 continue
             ident = f"{m['kind']}:{json.dumps(m['case']['grammar']['rules'], sort_keys=True)}:{m['rule']}:{m['s']!r}:{m['i']}"
             violations.append({
-                "what": f"{m['kind']} of rule {m['rule']!r} on {m['s']!r} at {m['i']}: implementation {m['impl'][:200]} "
-                        f"but the specification (proved model) gives {m['model'][:200]}",
+                "what": (f"{m['kind']} of rule {m['rule']!r} on {m['s']!r} at {m['i']}: implementation {(m['impl'] or '')[:200]} "
+                         f"but the specification (proved model) gives {(m['model'] or '')[:200]}") if m["kind"] != "build" else
+                        ("the object graph built by the library is not the one the grammar denotes: " + (m["impl"] or "")[:400]),
                 "identity": ident,
                 "replay_payload": {"property": ctx["pid"], "kind": m["kind"], "rule": m["rule"], "source": m["s"],
                                    "offset": m["i"], "observed_implementation": m["impl"],
